@@ -50,7 +50,7 @@ func c45(c *rig.Ctx) {
 			jobs = append(jobs, job{"push", i})
 		}
 	}
-	workers := c.Pick(2, 4)
+	workers := c.Pick(2, 5)
 	ch := make(chan job)
 	var wg sync.WaitGroup
 	for w := 0; w < workers; w++ {
@@ -104,11 +104,11 @@ type clusterScn struct {
 	obs  *obsLog
 	stop atomic.Bool
 	// truth: branch -> commit hash -> message, union of the dolt_log of every primary taken at the end of its epoch
-	truthMu sync.Mutex
-	truth   map[string]map[string]string
-	down    [2]atomic.Bool // server is deliberately down (observer / writers do not count errors)
-	ackOff   atomic.Int32  // 1 while the monitor has replication acknowledgement switched off (or is switching)
-	probeSeq int
+	truthMu   sync.Mutex
+	truth     map[string]map[string]string
+	down      [2]atomic.Bool // server is deliberately down (observer / writers do not count errors)
+	ackOff    atomic.Int32   // 1 while the monitor has replication acknowledgement switched off (or is switching)
+	probeSeq  int
 	warnNotes atomic.Int32
 }
 
@@ -513,7 +513,8 @@ func (s *clusterScn) event(kind string, rnd *rand.Rand) {
 			s.t.inc("c45.cluster.standby_restarts_survived")
 			s.record(sb, st)
 		} else if err == nil && st.role != "standby" {
-			s.viol("c45/cluster/role-lost-on-restart", fmt.Sprintf("standby restarted in role %q", st.role), map[string]any{"server": s.srv[sb].Name})
+			// not a clause of C45 (the persisted role is another mechanism): the scenario cannot go on meaningfully
+			s.c.Inconclusive(fmt.Sprintf("%s: standby restarted in role %q", s.name, st.role))
 		}
 	case "probe":
 		s.probeStandby(sb)
